@@ -177,6 +177,36 @@ def run(tier, seed, replay=None):
                 if bi != "ok " + v:
                     judge_bad.append(dict(type=ty, value=v, text_hex=enc_i[k][3:], read_back=bi, profile=prof,
                                           why="from_str(to_string(v)) differs from v"))
+            # the other ways of handing the same JSON to serde_json (bytes, a reader, a parsed Value) must read it alike
+            for via in ("slice", "reader", "value"):
+                alt = impl.ask_many(["OFJSONVIA %s %s %s" % (via, ty, enc_i[k][3:]) for k in idx])
+                evals += len(idx)
+                for k, bi, ba in zip(idx, back_i, alt):
+                    # (integers above 2^64 etc. do not occur in the library's own output; Value keeps u64 exactly)
+                    if ba != bi:
+                        judge_bad.append(dict(type=ty, value=vals[k], text_hex=enc_i[k][3:], read_back=ba, via=via, profile=prof,
+                                              why="the JSON the library printed reads back as the value through serde_json::from_str "
+                                                  "but not through serde_json::from_%s" % via))
+            # the same JSON with characters of its strings written as \uXXXX escapes (legal JSON for the same value;
+            # implementation only: the model's JSON layer does not cover escapes)
+            import re as _re
+
+            def _esc(t):
+                def f(m):
+                    body = m.group(1)
+                    if not body or "\\" in body:
+                        return m.group(0)
+                    i = rng.randrange(len(body))
+                    return '"%s\\u%04x%s"' % (body[:i], ord(body[i]), body[i + 1:]) if ord(body[i]) < 0x10000 else m.group(0)
+                return _re.sub(r'"([^"]*)"', f, t)
+            esc_t = [hx(_esc(unhx(enc_i[k][3:]).decode())) for k in idx]
+            esc = impl.ask_many(["OFJSON %s %s" % (ty, t) for t in esc_t])
+            evals += len(idx)
+            for k, bi, be, et in zip(idx, back_i, esc, esc_t):
+                if be != bi:
+                    judge_bad.append(dict(type=ty, text_hex=et, expected=bi, read_back=be, profile=prof,
+                                          why="the library's JSON with a character written as a \\uXXXX escape (the same JSON value) "
+                                              "does not read back as the value"))
             if len(samples) < 6 and vals:
                 samples.append("%s %s -> %s" % (ty, vals[0], unhx(enc_i[0][3:]).decode() if enc_i[0].startswith("ok ") else enc_i[0]))
 
